@@ -73,11 +73,13 @@ int vnaproperty_import_yaml_from_file(vnaproperty_t **rootptr, FILE *fp,
 	goto error;
     }
     yaml_document_delete(&document);
+    yaml_parser_delete(&parser);
     return 0;
 
 error:
     if (delete_document) {
 	yaml_document_delete(&document);
     }
+    yaml_parser_delete(&parser);
     return -1;
 }
